@@ -9,6 +9,18 @@ import (
 	"github.com/edutko/decipher/internal/openpgp/packet"
 )
 
+// readRPMPackage reads the lead and the two headers. go-rpm slices its value store with offsets computed from
+// the header's own counts and panics on some malformed headers (e.g. a string array that announces more strings
+// than the store holds); that must end as an error, not as a crash of the program.
+func readRPMPackage(data []byte) (r *rpm.PackageFile, err error) {
+	defer func() {
+		if p := recover(); p != nil {
+			r, err = nil, fmt.Errorf("malformed RPM header: %v", p)
+		}
+	}()
+	return rpm.ReadPackageFile(bytes.NewReader(data))
+}
+
 // rpmStringByTag returns the first string of a tag, or "" when the tag is absent, is not a string tag or is empty.
 func rpmStringByTag(ix rpm.IndexEntries, tag int) string {
 	if e := ix.IndexByTag(tag); e != nil {
